@@ -481,11 +481,16 @@ def load_known():
     return json.load(open(KNOWN))
 
 
-def match_known(known, prop, harness, obligation):
-    for k in known.get("open", []):
-        if k["property"] == prop and k["harness"] == harness and k["obligation"] in obligation:
-            return k
-    return None
+def match_known(known, prop, harness, failed_descs):
+    """A failed harness is a known finding only if EVERY failed obligation of it is listed for
+    (property, harness); any other failed obligation is still reported as a violation."""
+    entries = [k for k in known.get("open", []) if k["property"] == prop and k["harness"] == harness]
+    if not entries or not failed_descs:
+        return None
+    for d in failed_descs:
+        if not any(k["obligation"] in d for k in entries):
+            return None
+    return entries[0]
 
 
 # --------------------------------------------------------------------------- check
@@ -699,7 +704,7 @@ def check(prop, tier, keep=False, only=None):
                                      (h.name, "; ".join(fc["function"] for fc in r["failed_checks"])))
                     continue
                 descs = "; ".join(fc["description"] for fc in real) or "unnamed failed check"
-                k = match_known(known, prop, h.name, descs)
+                k = match_known(known, prop, h.name, [fc["description"] for fc in real])
                 if k:
                     known_hits.append((k, h.name, descs))
                     continue
